@@ -13,6 +13,7 @@ import (
 func init() { Registry["C08"] = c08 }
 
 func c08(r *Report) {
+	defer c08Seed9(r)
 	defer c08Seed8(r)
 	defer c08Seed7(r)
 	defer c08Seed5(r)
